@@ -38,20 +38,22 @@ impl OverlayFS {
         if path.is_empty() {
             return Ok(self.layers[0].clone());
         }
+        // an entry of the write layer is newer than any deletion marker of its path: a marker
+        // only hides what the lower layers hold
+        let write_path = self.write_path(path)?;
+        if write_path.exists()? {
+            return Ok(write_path);
+        }
         if self.whiteout_path(path)?.exists()? {
             return Err(VfsErrorKind::FileNotFound.into());
         }
-        for layer in &self.layers {
+        for layer in &self.layers[1..] {
             let layer_path = layer.join(&path[1..])?;
             if layer_path.exists()? {
                 return Ok(layer_path);
             }
         }
-        let read_path = self.write_layer().join(&path[1..])?;
-        if !read_path.exists()? {
-            return Err(VfsErrorKind::FileNotFound.into());
-        }
-        Ok(read_path)
+        Err(VfsErrorKind::FileNotFound.into())
     }
 
     fn write_path(&self, path: &str) -> VfsResult<VfsPath> {
@@ -183,13 +185,6 @@ impl FileSystem for OverlayFS {
     }
 
     fn exists(&self, path: &str) -> VfsResult<bool> {
-        if self
-            .whiteout_path(path)
-            .map_err(|err| err.with_context(|| "whiteout_path"))?
-            .exists()?
-        {
-            return Ok(false);
-        }
         match self.read_path(path) {
             Ok(path) => path.exists(),
             Err(err) => match err.kind() {
